@@ -233,6 +233,8 @@ pub fn run_all(cx: &Cx) -> Acc {
                                 faults: vec![],
                                 tail: vec![],
                                 segments: 0,
+                                counting_hint: false,
+                                unfused_errors: false,
                             },
                             req,
                         };
